@@ -116,7 +116,7 @@ class AuditRun:
                 for cid, con in contests.items():
                     con.cards = self.cards_after_setup[cid]
                     con.cvrs = self.cvrs_after_setup[cid]
-            early = bool(first and self.case.get("early_margins") and not self.case.get("margins_via_tally"))
+            early = bool(first and self.case.get("early_margins"))
             if early:
                 # the worked notebook's order: assertions first, and a look at the reported margins *before* the
                 # ONEAudit pooling step changes the CVRs in place; margins are set again afterwards
@@ -134,7 +134,7 @@ class AuditRun:
             if first:
                 self.cards_after_setup = {cid: con.cards for cid, con in contests.items()}
                 self.cvrs_after_setup = {cid: con.cvrs for cid, con in contests.items()}
-        if not self.polling and first and self.case.get("early_margins") and not self.case.get("margins_via_tally"):
+        if not self.polling and first and self.case.get("early_margins"):
             for con in contests.values():  # user-side glue: the tests were built before the bounds grew
                 for asn in con.assertions.values():
                     asn.test.N = int(con.cards)
@@ -191,6 +191,23 @@ class AuditRun:
             if len(set(tick)) != len(tick):
                 raise Abort("ticket collision")
         else:
+            self.avail = {cid: sum(1 for c in self.cvr_list if c.has_contest(cid)) for cid in self.contests}
+            reh = case.get("rehearsal")
+            if reh:
+                # a rehearsal draw with other sample numbers on the same objects, discarded before the audit proper
+                # (assign_sample_nums "assigns (or overwrites)" the numbers); nothing of it may survive
+                self.call("assign_sample_nums(rehearsal)", ns.CVR.assign_sample_nums, self.cvr_list, ns.SHA256(reh["seed"]))
+                saved = {cid: (con.sample_size, getattr(con, "sample_threshold", None)) for cid, con in self.contests.items()}
+                for cid, con in self.contests.items():
+                    con.sample_size = max(min(self.avail[cid], 1), min(self.avail[cid], int(math.ceil(reh["frac"] * self.avail[cid]))))
+                self.call("consistent_sampling(rehearsal)", ns.CVR.consistent_sampling, cvr_list=self.cvr_list,
+                          contests=self.contests, fatal=False)
+                for cid, con in self.contests.items():
+                    con.sample_size, con.sample_threshold = saved[cid]
+                for c in self.cvr_list:
+                    c.sampled = False
+                out.faults["F14 rehearsal draw discarded, cards renumbered"] += 1
+                out.shape("rehearsal")
             if case["numbering"]["mode"] == "sha256":
                 self.call("assign_sample_nums", ns.CVR.assign_sample_nums, self.cvr_list, ns.SHA256(case["numbering"]["seed"]))
             else:
